@@ -336,5 +336,21 @@ theorem add_twice_leaks :
         (fun w => (w.s.openFds, w.s.wd.map (·.1), w.s.path.map (·.2), (run .close w).s.openFds, w.bad)) =
       some ([4, 3], [4, 3], [3], [4], none) := by decide +kernel
 
+/-!
+### … and an `Add(dir)` that fails half way (finding F19)
+
+No interleaving needed, only an environment that changes between `ReadDir` and `Lstat`: the directory lists
+`a` and `b`, `b` is gone when it is looked at. `Add` returns the error, the directory and `a` stay open,
+registered and in the tables — and nothing is in `WatchList` (`addUserWatch` is reached on success only).
+-/
+def tapeHalf : List Ans :=
+  [.lstat [47, 100] (.ok .dir), .opn [47, 100] (.ok 5), .readdir [47, 100] (.ok [([97], .ok .file), ([98], .error .noent)]),
+   .lstat [47, 100, 47, 97] (.ok .file), .opn [47, 100, 47, 97] (.ok 6)]
+
+theorem failed_add_leaves_watches :
+    let r := KqF.add [47, 100] { tape := tapeHalf }
+    r.1 = some (.fs .noent) ∧ r.2.s.openFds = [6, 5] ∧ r.2.s.byUser = [] ∧ (watchList r.2).1 = [] ∧ r.2.bad = none := by
+  decide +kernel
+
 end Full
 end C17
